@@ -54,14 +54,16 @@ func verifC44Out(s *sessionState) VerifC44State {
 	return VerifC44State{Vers: s.vers, Suite: s.cipherSuite, Master: append([]byte(nil), s.masterSecret...), Certificates: s.certificates}
 }
 
-// VerifC44Decrypt runs the real decryptTicket (on a copy: decryptTicket decrypts in place).
-func VerifC44Decrypt(key, ticket []byte) (VerifC44State, bool) {
+// VerifC44Decrypt runs the real decryptTicket on a copy of ticket and also returns that buffer as the call
+// left it (decryptTicket decrypts in place).
+func VerifC44Decrypt(key, ticket []byte) (VerifC44State, bool, []byte) {
 	c := verifC44Conn(key)
-	s, ok := c.decryptTicket(append([]byte(nil), ticket...))
+	buf := append([]byte(nil), ticket...)
+	s, ok := c.decryptTicket(buf)
 	if !ok || s == nil {
-		return VerifC44State{}, false
+		return VerifC44State{}, false, buf
 	}
-	return verifC44Out(s), true
+	return verifC44Out(s), true, buf
 }
 
 // VerifC44Consts: suite flag bits, RC4 policy values and client-auth values used by the policy code.
